@@ -50,6 +50,13 @@ type Partial struct {
 	Args []Value
 }
 
+// ThreadV is the result of spawn(): the model runs the spawned call to completion at once (the
+// generators always wait() immediately, so no other order is observable).
+type ThreadV struct {
+	Res Value
+	Err *RErr
+}
+
 // RErr is a raised run-time error travelling through the interpreter.
 type RErr struct {
 	Cat   string // "type error", "index error", "slice error", "key error", "args error", "eval error", "value error", "unpack", "user", "panic"
@@ -89,6 +96,8 @@ func TypeName(v Value) string {
 		return "builtin"
 	case *Partial:
 		return "partial"
+	case *ThreadV:
+		return "thread"
 	}
 	return fmt.Sprintf("?%T", v)
 }
@@ -194,6 +203,8 @@ func Render(v Value) string {
 		return "builtin"
 	case *Partial:
 		return "partial"
+	case *ThreadV:
+		return "thread"
 	}
 	return TypeName(v) + ":" + Inspect(v)
 }
